@@ -168,6 +168,28 @@ def _introspect_class(
     fis = InspectFunction.inspect_class(
         ast_f, gctx, fun_module, body_lines, arg_ctx, fun_path, call_stack
     )
+    # The methods inherited from the base classes are part of what the class does: the base
+    # classes that belong to accepted modules are analysed like the class itself and enter
+    # its signature (a class without such a base keeps the signature of its own body).
+    base_fis: List[FunctionInteractions] = []
+    for base in c.__bases__:
+        if base is object or inspect.getmodule(base) is None:
+            continue
+        if not gctx.is_authorized_path(function_path(base)):
+            continue
+        base_fis.append(_introspect_class(base, arg_ctx, gctx, call_stack))
+    if base_fis:
+        return_sig = dds_hash_commut(
+            [(HK("class_sig"), fis.fun_return_sig)]
+            + [
+                (HK(f"base_class_{idx}"), b.fun_return_sig)
+                for (idx, b) in enumerate(base_fis)
+            ]
+        )
+        assert return_sig is not None
+        fis = fis._replace(
+            fun_return_sig=return_sig, parsed_body=list(fis.parsed_body) + base_fis
+        )
     # Cache the function interactions
     gctx.cached_fun_interactions[fis_key] = fis
     # cache the function interactions in the global context
